@@ -70,6 +70,8 @@ def run(tier, seed, replay=None):
         jobs = [(r["mode"], r["scenario"])]
     ntr = 0
     for j, (mode, scn) in enumerate(jobs):
+        if mode == "write":
+            continue          # stage (d)
         sp, ep = os.path.join(work, "s%d.json" % j), os.path.join(work, "e%d.ndjson" % j)
         with open(sp, "w") as f:
             json.dump(scn, f)
@@ -146,6 +148,50 @@ def run(tier, seed, replay=None):
                 chk.violation("impl:C15_OrderIndependent", "non-interacting cells end in a different state when they are listed in the opposite order (1 thread): %s vs %s" % (
                     strip(ev_r[-1]["digest"])[:3], strip(ref[1])[:3]), {"mode": "det", "scenario": s_r})
         chk.cov["determinism_runs"] = [{"threads": th, "iterations": it, "digest0": dg[0] if dg else None} for th, dg, it in digests]
+    # ---- (d) the mesh output phase: spec/Parallel/WriteSections (compaction joined before the two concurrent sections: no cell is read
+    # while it is compacted, both files describe compacted cells, under every schedule; the design that compacts inside the cell-data
+    # section is refuted), and real mesh_writer::write calls on a tissue with free slots at 2, 3 and 8 threads, repeated: the two
+    # files of every call must be those of the single-threaded call (WriteTrace)
+    nwr = 0
+    if not replay or (jobs and jobs[0][0] == "write"):
+        if not replay:
+            res = vlib.tlc(SPEC, "WriteSections", "WriteSections.cfg", timeout=600, workers=4)
+            chk.add_tlc("WriteSections/WriteSections.cfg", res)
+            if res.is_violation:
+                chk.violation("design:WriteSections:%s" % ",".join(res.violated), "TLC: WriteSections violates %s\n%s" % (res.violated, res.out[-2000:]))
+            else:
+                vlib.tlc_expect_ok(res, "WriteSections")
+            sd = vlib.tlc(SPEC, "WriteSections", "WriteSections_seeded.cfg", timeout=600, workers=4)
+            if "NoReadDuringCompaction" not in sd.violated:
+                raise ModelError("negative control: the design that compacts inside the cell-data section was not refuted (%r)" % sd.violated)
+            wscn = {"seed": seed, "threads": 8, "n": 8, "level": 4, "trials": 5 if tier == "quick" else 40, "lmin": 0.6e-6, "lmax": 1e-5, "thread_list": [2, 3, 8] if tier == "quick" else [2, 3, 4, 5, 8, 16]}
+        else:
+            wscn = jobs[0][1]
+        sp, ep = os.path.join(work, "wscn.json"), os.path.join(work, "wev.ndjson")
+        with open(sp, "w") as f:
+            json.dump(wscn, f)
+        rc, out = vlib.run([os.path.join(bdir, "par_driver"), "write", sp, ep], timeout=1200)
+        recs = vlib.read_ndjson(ep) if os.path.exists(ep) else []
+        expected = 1 + (wscn["trials"] - 1) + wscn["trials"] * len(wscn["thread_list"])
+        if rc != 0 or len(recs) != expected:
+            chk.violation("crash:write", "par_driver write terminated with status %d after %d of %d mesh_writer::write calls (crash in the mesh output phase with several threads)\n%s" % (rc, len(recs), expected, out[-300:]),
+                          {"mode": "write", "scenario": wscn})
+        if recs:
+            n, bad = vlib.tlc_validate_records(SPEC, "WriteTrace", "WriteTrace.cfg", recs, chunk=2000, par=1, workers=2)
+            nwr = n
+            chk.cov["states"] += n
+            chk.cov["transitions"] += n
+            for inv, idxs in sorted(bad.items()):
+                r = recs[idxs[0]]
+                chk.violation("impl:write:%s" % inv, "mesh_writer::write with %d threads (call %d, %d free node / %d free face slots before the call): %s -- files of %d / %d bytes, single-threaded call %d / %d bytes (%d calls differ)"
+                              % (r["threads"], r["call"], r["free_nodes"], r["free_faces"], inv, r["cell_size"], r["face_size"], r["ref_cell_size"], r["ref_face_size"], len(idxs)), {"mode": "write", "scenario": wscn})
+            if not replay:
+                c1 = dict(recs[-1]); c1["face_digest"] = "0" * 16
+                _, cb = vlib.tlc_validate_records(SPEC, "WriteTrace", "WriteTrace.cfg", [c1], chunk=5, par=1, workers=2)
+                if 0 not in cb.get("P_FaceFile", []):
+                    raise ModelError("negative control: a tampered face-file digest was accepted")
+            chk.cov["mesh_output_calls"] = {"calls": len(recs), "threads": sorted({r["threads"] for r in recs}), "free_slots_before": recs[0]["free_nodes"] + recs[0]["free_faces"]}
+    ndet += nwr
     chk.cov["traces_validated_against_impl"] = ntr + ndet
     chk.cov["evaluations"] = ntr + ndet
     chk.cov["distinct_nontrivial"] = len({json.dumps(s) for _, s in jobs})
